@@ -77,7 +77,7 @@ class HistoryRun(object):
     schema_before = doc.engine_schema() if "failed" in self.oracles else None
     res = self._raw(uas)
     self.stats["bundles"] += 1
-    rec = {"actions": uas, "kinds": list(kinds), "res": res, "before": before}
+    rec = {"actions": uas, "kinds": list(kinds), "res": res, "before": before, "log_index": len(self.log) - 1}
     self.bundles.append(rec)
     if res.ok:
       self.stats["ok"] += 1
@@ -105,6 +105,7 @@ class HistoryRun(object):
 
   def _find(self, prop, sig, detail, rec, extra=None):
     rp = self.replay_obj()
+    rp["bundle_index"] = rec.get("log_index", len(self.log) - 1)
     if extra:
       rp.update(extra)
     self.findings.append((prop, sig, detail, rp))
@@ -226,6 +227,13 @@ class HistoryRun(object):
           self.replica.apply(a)
 
   # ---------------------------------------------------------------- driving
+  def end(self):
+    """Full-document comparison at the end of the history (partial ones ran per bundle)."""
+    if self.tie is not None:
+      res = self.doc.apply([["Calculate"]])
+      self.log.append([["Calculate"]])
+      self.tie.bundle(self.doc, res, len(self.log) - 1, full=True)
+
   def run(self):
     gen = self.gen
     for b in gen.initial_bundles():
@@ -240,6 +248,7 @@ class HistoryRun(object):
       rec = self.apply(uas, kinds)
       if rec.get("abandon") or rec.get("undo_failed"):
         break
+    self.end()
     return self
 
 
